@@ -99,6 +99,9 @@ Definition cls_C08 (i : term) : list Z :=
     (if in_F8 ns then [8] else [])
     ++ (if existsb (String.eqb (gs (gn i 1))) edge_formats && in_F9_nodes ns then [9] else [])
     ++ (if in_F19 ns then [19] else [])
+    (* F25 at the level of bytes: -dot (EntropyOrder) with weights large enough for float64 rounding
+       of score*cum to reach the integer part *)
+    ++ (if String.eqb (gs (gn i 1)) "dot" && existsb (fun n => 1099511627776 <=? abs64 (n_cum n)) ns then [25] else [])
   else if String.eqb op "ent" then
     (* F25: three or more edges on one side: the float accumulation order is visible *)
     if (3 <=? Z.of_nat (List.length (gl (gn i 3)))) then [25] else []
